@@ -109,6 +109,9 @@ def build_cases(tier):
             files = {"one.py": "X = 1\n", "two.py": "Y = 2\n", "client.py": "Z = 3\n", "sub/one.py": "W = 4\n"} if key == "files_to_include" else {}
             add("A_dev", corpus.SCHEMA_K, a_all, dict(base, **{key: val}), files=files, expect=expect,
                 tags={f"dev:{key}={val}", "deviation"} | {f"{k}={v}" for k, v in base.items()} | ({f"refusal:collision"} if expect != "ok" else set()))
+    # custom operations over the input/enum-heavy schema with renamed enums / inputs modules (the builder modules import from them)
+    for key, val in (("enums_module_name", "my_enums"), ("input_types_module_name", "my_inputs"), ("client_name", "MyClient"), ("client_file_name", "my_client")):
+        add("B_custom_ops_dev", SCHEMA_B, b_nosub, {"enable_custom_operations": True, key: val}, tags={f"dev:{key}={val}", "deviation", "set:B", "custom_operations_module_names"})
     # custom base client file
     base_src = "class MyBase:\n    def __init__(self, url=''):\n        self.url = url\n"
     add("A_custom_base", corpus.SCHEMA_K, a_all, {"base_client_name": "MyBase", "base_client_file_path": "@my_base.py"}, files={"my_base.py": base_src}, tags={"custom_base_client"})
